@@ -7,7 +7,8 @@ use_repo()
 ID = 'C16'
 LEVEL = 'exploration'
 RULE = ('case = one read/write of size 1/2/4/8 in a random history (200 ops) over a generated controller list '
-        '(1-6 devices, sizes 0..64 incl. odd, adjacent/gapped/overlapping/ending at 2^32); after every op all '
+        '(1-6 devices, sizes 0..64 incl. odd, adjacent/gapped/overlapping/ending at 2^32/straddling 2^32/above 4 GB: physical '
+        'addresses are 40 bits); after every op all '
         'devices are compared byte for byte with a first-match-wins list-of-bytearrays model; non-trivial = the op '
         'hits a mapped device; distinct = (op, size, position class relative to device end/start, layout class, '
         'hit-device index)')
@@ -44,7 +45,7 @@ def _install_invariant():
 
 
 def gen_layout(rng):
-    kind = rng.choice(['single', 'adjacent', 'gapped', 'overlap', 'top', 'mixed', 'mixed'])
+    kind = rng.choice(['single', 'adjacent', 'gapped', 'overlap', 'top', 'mixed', 'mixed', 'high', 'straddle4g'])
     devs = []
     n = 1 if kind == 'single' else rng.randrange(2, 7)
     base = rng.choice([0, 0x10, 0x1000, 0x7FFFFFF0, 0xF0000000])
@@ -68,6 +69,16 @@ def gen_layout(rng):
         # shift so that the last device ends exactly at 2^32
         shift = (1 << 32) - devs[-1][1]
         devs = [[b + shift, e + shift] for b, e in devs]
+    elif kind == 'high':
+        # physical addresses are 40 bits wide (large physical address extension, supersections): devices above 4 GB
+        shift = rng.choice([1 << 32, (1 << 32) + 0x1000, 0xFF00000000, (1 << 40) - 0x1000]) - devs[0][0]
+        devs = [[b + shift, min(e + shift, 1 << 40)] for b, e in devs]
+        devs = [[b, max(b, e)] for b, e in devs]
+    elif kind == 'straddle4g':
+        shift = (1 << 32) - devs[len(devs) // 2][0] - rng.choice([0, 1, 3, 4, 7])
+        devs = [[b + shift, e + shift] for b, e in devs if b + shift >= 0]
+        if not devs:
+            devs = [[(1 << 32) - 4, (1 << 32) + 4]]
     rng.shuffle(devs) if rng.random() < 0.3 else None
     return kind, devs
 
@@ -114,8 +125,8 @@ def run_shard(spec):
             elif r < 0.9 and e > b:
                 addr = rng.randrange(b, e)
             else:
-                addr = rng.choice([0, 0xFFFFFFFF, 0xFFFFFFF8, b + 0x100, rng.getrandbits(32)])
-            addr &= 0xFFFFFFFF
+                addr = rng.choice([0, 0xFFFFFFFF, 0xFFFFFFF8, b + 0x100, rng.getrandbits(32), rng.getrandbits(40), 0xFFFFFFFC, 0x100000000])
+            addr &= (1 << 40) - 1
             is_write = rng.random() < 0.55
             tag += 1
             value = int.from_bytes(bytes(((tag * 8 + i) * 37 + 11) & 0xFF for i in range(size)), 'little')
